@@ -1,27 +1,28 @@
 (* C09/ProofsMean3.v — focal mean of a non-excluded cell = focal apply with a full 3x3 kernel and nanmean. *)
-Require Import Base.Prelude C09.Generated C09.Model C09.Proofs C09.ProofsStats C09.ProofsMean.
+Require Import Base.Prelude C09.Generated C09.Arith C09.Model C09.Proofs C09.ProofsStats C09.ProofsMean C09.ProofsNeg.
 From Coq Require Import QArith.
 Open Scope Z_scope.
 
-Definition ones33 : grid Q := fill2 1%Q 3 3.
+Definition ones33 : grid xq := fill2 (Some 1%Q) 3 3.
 
 Lemma zrange3 a : zrange a (a + 3) = [a; a + 1; a + 1 + 1].
 Proof. unfold zrange. replace (Z.to_nat (a + 3 - a)) with 3%nat by lia. reflexivity. Qed.
 
 (* the clipped 3x3 block is exactly the set of cells under a full 3x3 kernel centred on the cell *)
-Lemma clipped3x3_cells_under data rows cols y x :
-  clipped3x3 data rows cols y x = cells_under data ones33 rows cols 1 1 y x.
+Lemma clipped3x3_cells_under qs (data : grid xq) rows cols y x :
+  clipped3x3 None data rows cols y x =
+  cells_under None None (is_one (ExactArith qs)) data ones33 rows cols 1 1 y x.
 Proof.
   unfold clipped3x3, cells_under.
   replace (y + 2) with (y - 1 + 3) by lia. replace (x + 2) with (x - 1 + 3) by lia.
   rewrite !zrange3.
   change (zrange 0 (2 * 1 + 1)) with [0; 1; 2].
   cbn [map concat app]. cbv zeta.
-  change (is_one_q (get2 0%Q ones33 0 0)) with true. change (is_one_q (get2 0%Q ones33 0 1)) with true.
-  change (is_one_q (get2 0%Q ones33 0 2)) with true. change (is_one_q (get2 0%Q ones33 1 0)) with true.
-  change (is_one_q (get2 0%Q ones33 1 1)) with true. change (is_one_q (get2 0%Q ones33 1 2)) with true.
-  change (is_one_q (get2 0%Q ones33 2 0)) with true. change (is_one_q (get2 0%Q ones33 2 1)) with true.
-  change (is_one_q (get2 0%Q ones33 2 2)) with true.
+  change (is_one (ExactArith qs) (get2 None ones33 0 0)) with true. change (is_one (ExactArith qs) (get2 None ones33 0 1)) with true.
+  change (is_one (ExactArith qs) (get2 None ones33 0 2)) with true. change (is_one (ExactArith qs) (get2 None ones33 1 0)) with true.
+  change (is_one (ExactArith qs) (get2 None ones33 1 1)) with true. change (is_one (ExactArith qs) (get2 None ones33 1 2)) with true.
+  change (is_one (ExactArith qs) (get2 None ones33 2 0)) with true. change (is_one (ExactArith qs) (get2 None ones33 2 1)) with true.
+  change (is_one (ExactArith qs) (get2 None ones33 2 2)) with true.
   change (0 + 1 + 1) with 2. change (0 + 1) with 1.
   replace (y + 0 - 1) with (y - 1) by lia. replace (y + 1 - 1) with (y - 1 + 1) by lia.
   replace (y + 2 - 1) with (y - 1 + 1 + 1) by lia.
@@ -34,15 +35,16 @@ Proof.
   destruct ((0 <=? x - 1 + 1 + 1) && (x - 1 + 1 + 1 <? cols)); reflexivity.
 Qed.
 
-(* focal mean of a non-excluded cell = focal apply with a full 3x3 kernel and the nanmean reducer *)
-Lemma mean_is_apply_3x3 rows cols excludes data y x :
+(* focal mean of a non-excluded cell = focal apply with a full 3x3 kernel and the nanmean reducer (exact instance) *)
+Lemma mean_is_apply_3x3 qs rows cols excludes (data : grid xq) y x :
   0 < rows -> wf data rows cols -> 0 <= y < rows -> 0 <= x < cols ->
-  excluded excludes (get2 None data y x) = false ->
-  get2 None (mean_numpy data excludes) y x =
-  calc_mean (window_spec None 0%Q is_one_q data ones33 rows cols 1 1 y x).
+  excluded (ExactArith qs) excludes (get2 None data y x) = false ->
+  get2 None (mean_numpy (ExactArith qs) data excludes) y x =
+  calc_mean (ExactArith qs) (window_spec None None (is_one (ExactArith qs)) data ones33 rows cols 1 1 y x).
 Proof.
   intros Hr Hd Hy Hx He.
-  rewrite (mean_numpy_spec rows cols excludes Hr) by assumption. rewrite He.
-  unfold calc_mean. rewrite wvals_window, <- clipped3x3_cells_under.
-  unfold nanmean_list. destruct (somes (clipped3x3 data rows cols y x)); reflexivity.
+  pose proof (mean_numpy_spec (ExactArith qs) rows cols excludes Hr data y x Hd Hy Hx) as H.
+  cbn [dnan disnan T64 ExactArith] in H. unfold xq in *. rewrite He in H. rewrite H.
+  rewrite (nanmean_gen_exact qs).
+  rewrite calc_mean_nanmean, wvals_window, <- (clipped3x3_cells_under qs). reflexivity.
 Qed.
